@@ -46,6 +46,10 @@ CHECKS.update({
                 technique="property-based testing (rapid) of the real router and sender worker against an independent reference resolution written from the statement",
                 text="Routing tag values from a JSON-aware grammar plus free strings, source tables (order, default), target tables overlapping URL-looking names, plugin availability, task kind and hand-off outcome; the promise goes through router.New/Process, the recv through sender.New's target table and SenderWorker.Process with recording plugins. Oracle: route/no-route and logical/physical classification, (transport, data) resolution, message body naming task id/counter/links or the promise, exactly one completion per submission, success only when a transport accepted. Found F6 (tag value null crashes the router), repaired.",
                 note="Recording plugins stand in for the poll/http transports (those are C18 and C13/C20). JSON field names are matched case-insensitively like Go's decoder (the statement is silent). Receiver data is compared as JSON values."),
+    "C12": dict(engine="kernelq", category="exploration", design="§5 C12",
+                technique="stateful property testing (rapid state machine) of the production api/aio queues and system.Tick with a harness-stepped subsystem; plus a goroutine stress run judged after Loop returned",
+                text="(a) deterministic: one goroutine drives submit / burst / tick / complete-one / shutdown on the production internal/api queue, internal/aio completion queue and system.Tick with every size (api queue, completion queue, subsystem queue, coroutine pool, batch sizes) down to 1; oracle: exactly one answer per request at quiescence, door refusals only when the queue can be full (occupancy interval), shutting-down for requests after Shutdown, payload echoed to its own request, Done() reached after Shutdown with everything accepted answered. (b) stress: real clients, echo + sqlite workers (1 ns tx timeout => natural failures), Loop and Shutdown; judged after Loop and all clients returned: no request answered twice or never.",
+                note="(b) samples Go scheduler interleavings (not reproducible; its seed only selects sizes); a run whose clients or Loop do not return in 30 s is classified inconclusive, not a violation. Reading suggests a window between the a.done check in EnqueueSQE and Loop's exit (F16); it was not observed and is therefore not a listed finding."),
     "C15": dict(engine="front", category="exploration", design="§5 C15",
                 technique="exhaustive enumeration of the (endpoint x kernel status x response shape x delivery) matrix against a stub kernel, plus property-based differential testing (rapid) of HTTP vs gRPC request translation",
                 text="Part 1 enumerates completely, on every run, every endpoint of both protocols x every StatusCode constant (parsed from t_api/status.go at run time) x every response shape the operation's coroutine can return, delivered as response status and as t_api.Error, through the real gin handler and the real gRPC service methods: no panic / dropped reply, HTTP code = status/100 with a parsable error body carrying the status, gRPC OK message or the documented code class, outcome flags consistent with the status. Part 2 generates well-formed requests in both protocols and requires the same t_api.Request to reach the kernel. Found F5 (statuses missing from tables; released flag), repaired.",
@@ -63,6 +67,7 @@ CHECKS.update({
 NOT_APPLICABLE = []
 
 ENGINES = [
+    dict(name="kernelq", path="harness/kernelq", kind_free_text="production api/aio queues + system.Tick/Loop/Shutdown: deterministic state machine and goroutine stress"),
     dict(name="pollt", path="harness/pollt", kind_free_text="poll transport: single-threaded registry driver + reference model; wire-level SSE run"),
     dict(name="route", path="harness/route", kind_free_text="real router + sender worker with recording plugins vs reference receiver resolution"),
     dict(name="front", path="harness/front", kind_free_text="stub kernel behind the real gin handler and gRPC service implementation; exhaustive status matrix + generated request equivalence"),
